@@ -329,7 +329,6 @@ example :
       [{ payload := pl "C" 11, interval := 0 }, { payload := pl "A" 10, interval := 7 }] := by
   decide
 
-
 /-! ## Part B — the retry queue, for every history -/
 
 /-! ### the map -/
@@ -1285,211 +1284,6 @@ example : GoLike qcfg ([], [])
 /-- the regenerated constants are the ones the theorems are instantiated with for the real queue -/
 theorem repo_constants : Cfg.repo.interval = 30 * 1000000000 ∧ Cfg.repo.expiration = 24 * 3600 * 1000000000 := by
   decide
-
-/-! ## the model's decisions ARE the expressions of the working tree (`Gen.Src`, regenerated every run) -/
-
-/-! ### post-processor conditions -/
-
-/-- eligible.go: `res.PipelineExecutionState == 0 && res.Eligible` -/
-theorem succEligible_matches_source (r : Res) : r.succEligible = Gen.Src.c12Eligible r.cr.pes r.cr.eligible := rfl
-
-/-- ineligible.go: `res.PipelineExecutionState == 0 && !res.Eligible` -/
-theorem succIneligible_matches_source (r : Res) : r.succIneligible = Gen.Src.c12Ineligible r.cr.pes r.cr.eligible := rfl
-
-/-- metadata.go: `r.PipelineExecutionState == 0 && r.Eligible` -/
-theorem proposes_matches_source (r : Res) : r.succEligible = Gen.Src.c12Proposes r.cr.pes r.cr.eligible := rfl
-
-/-- retry.go: `res.PipelineExecutionState != 0 && res.Retryable` -/
-theorem retryableFail_matches_source (r : Res) : r.retryableFail = Gen.Src.c12Retryable r.cr.pes r.cr.retryable := rfl
-
-/-- the eligible post-processor stages exactly the results its `if` condition selects -/
-theorem eligiblePP_matches_source (rt : List Res → List Payload → List RetryRecord) (ue : CheckResult → Bool)
-    (rs : List Res) (ps : List Payload) (s : Sinks) :
-    (PP.run rt ue rs ps s .eligible).staged =
-      s.staged ++ (rs.filter (fun r => Gen.Src.c12Eligible r.cr.pes r.cr.eligible)).map (·.cr) := rfl
-
-/-- the ineligible post-processor calls the state updater for exactly the results its `if` condition selects -/
-theorem ineligiblePP_matches_source (rt : List Res → List Payload → List RetryRecord) (ue : CheckResult → Bool)
-    (rs : List Res) (ps : List Payload) (s : Sinks) :
-    (PP.run rt ue rs ps s .ineligible).ineligible =
-      s.ineligible ++ (rs.filter (fun r => Gen.Src.c12Ineligible r.cr.pes r.cr.eligible)).map (·.cr) := rfl
-
-/-- the metadata post-processor proposes exactly the results its `if` condition selects -/
-theorem addProposalPP_matches_source (rt : List Res → List Payload → List RetryRecord) (ue : CheckResult → Bool)
-    (rs : List Res) (ps : List Payload) (s : Sinks) :
-    (PP.run rt ue rs ps s .addProposal).proposed =
-      s.proposed ++ (rs.filter (fun r => Gen.Src.c12Proposes r.cr.pes r.cr.eligible)).map (fun r => toProposal r.cr) := rfl
-
-/-! ### retry post-processor: pairing a failure with a payload -/
-
-/-- retry.go: `payloads[j].Trigger.BlockNumber == res.Trigger.BlockNumber && payloads[j].Trigger.BlockHash == res.Trigger.BlockHash` -/
-theorem blockMatch_matches_source (p : Payload) (r : CheckResult) :
-    blockMatch p r = Gen.Src.c12RetryBlockMatch p.trigger.blockNumber r.trigger.blockNumber
-      p.trigger.blockHash r.trigger.blockHash := rfl
-
-/-- the inner loop of retry.go in the shape of the source: `cs` are `payloads[j]` for the remaining
-`j ∈ byWorkID[res.WorkID]`, `pos` the position of the head among all candidates, `idx` the variable `idx`
-(`-1` = none yet).  Both `if`s are the regenerated conditions. -/
-private def srcInner (r : CheckResult) : List Payload → Nat → Int → Int
-  | [], _, idx => idx
-  | p :: cs, pos, idx =>
-    if Gen.Src.c12RetryBlockMatch p.trigger.blockNumber r.trigger.blockNumber p.trigger.blockHash r.trigger.blockHash
-    then (pos : Int)                                                                       -- `idx = j; break`
-    else srcInner r cs (pos + 1) (if Gen.Src.c12RetryNoCandidate idx then (pos : Int) else idx)   -- `if idx < 0 { idx = j }`
-
-private theorem srcInner_nonneg (r : CheckResult) : ∀ (cs : List Payload) (pos : Nat) (idx : Int), 0 ≤ idx →
-    srcInner r cs pos idx = match cs.findIdx? (fun p => blockMatch p r) with
-      | some k => ((pos + k : Nat) : Int)
-      | none => idx := by
-  intro cs
-  induction cs with
-  | nil => intro pos idx _; simp [srcInner]
-  | cons p cs ih =>
-    intro pos idx h
-    unfold srcInner
-    rw [← blockMatch_matches_source]
-    by_cases hb : blockMatch p r = true
-    · simp [hb, List.findIdx?_cons]
-    · have hn : Gen.Src.c12RetryNoCandidate idx = false := by simp [Gen.Src.c12RetryNoCandidate]; omega
-      simp only [hb, hn, Bool.false_eq_true, if_false, List.findIdx?_cons]
-      rw [ih (pos + 1) idx h]
-      cases List.findIdx? (fun p => blockMatch p r) cs with
-      | none => simp
-      | some k => simp only [Option.map_some]; congr 1; omega
-
-private theorem srcInner_start (r : CheckResult) (cs : List Payload) :
-    srcInner r cs 0 (-1) = match cs.findIdx? (fun p => blockMatch p r) with
-      | some k => (k : Int)
-      | none => if cs = [] then -1 else 0 := by
-  cases cs with
-  | nil => simp [srcInner]
-  | cons p cs =>
-    unfold srcInner
-    rw [← blockMatch_matches_source]
-    by_cases hb : blockMatch p r = true
-    · simp [hb, List.findIdx?_cons]
-    · have hn : Gen.Src.c12RetryNoCandidate (-1) = true := by decide
-      simp only [hb, hn, Bool.false_eq_true, if_false, if_true, List.findIdx?_cons]
-      rw [srcInner_nonneg r cs 1 ((0 : Nat) : Int) (by simp)]
-      cases List.findIdx? (fun p => blockMatch p r) cs with
-      | none => simp
-      | some k => simp only [Option.map_some]; congr 1; omega
-
-/-- **the pairing is the source's loop**: the model's `matchPayload` is what the inner loop of retry.go —
-written with the regenerated conditions `idx < 0` and the block/hash comparison — selects among the
-payloads carrying the result's work id; `none` is the source's `idx < 0` after the loop -/
-theorem matchPayload_matches_source (ps : List Payload) (r : CheckResult) :
-    matchPayload ps r =
-      (if Gen.Src.c12RetryNoCandidate (srcInner r (candidates ps r.workID) 0 (-1)) then none
-       else (candidates ps r.workID)[(srcInner r (candidates ps r.workID) 0 (-1)).toNat]?) := by
-  rw [srcInner_start]
-  unfold matchPayload
-  generalize candidates ps r.workID = cs
-  cases hf : cs.findIdx? (fun p => blockMatch p r) with
-  | some k =>
-    have hk := List.findIdx?_eq_some_iff_getElem.mp hf
-    obtain ⟨hlt, hbk, _⟩ := hk
-    have hfind : cs.find? (fun p => blockMatch p r) = some cs[k] := by
-      rw [List.find?_eq_some_iff_getElem]
-      refine ⟨hbk, k, hlt, rfl, ?_⟩
-      intro j hj
-      have := (List.findIdx?_eq_some_iff_getElem.mp hf).2.2 j hj
-      simpa using this
-    have hn : Gen.Src.c12RetryNoCandidate (k : Int) = false := by simp [Gen.Src.c12RetryNoCandidate]
-    simp [hfind, hn, hlt]
-  | none =>
-    have hnone : cs.find? (fun p => blockMatch p r) = none := by
-      rw [List.findIdx?_eq_none_iff] at hf
-      rw [List.find?_eq_none]
-      exact fun x hx => by simpa using hf x hx
-    cases cs with
-    | nil => simp [hnone, Gen.Src.c12RetryNoCandidate]
-    | cons a t => simp [hnone, Gen.Src.c12RetryNoCandidate]
-
-/-- one iteration of the outer loop of retry.go: the regenerated `if` conditions in source order —
-retryable failure?, (pairing), positional fallback out of range? -/
-theorem retryLoop_matches_source (ps : List Payload) (i : Nat) (res : Res) (rest : List Res) :
-    retryLoop ps i (res :: rest) =
-      if Gen.Src.c12Retryable res.cr.pes res.cr.retryable then
-        match matchPayload ps res.cr with
-        | some p => { payload := p, interval := res.retryInterval } :: retryLoop ps (i + 1) rest
-        | none =>
-          if Gen.Src.c12RetryFallbackOutOfRange i ps.length then retryLoop ps (i + 1) rest
-          else match ps[i]? with
-            | some p => { payload := p, interval := res.retryInterval } :: retryLoop ps (i + 1) rest
-            | none => retryLoop ps (i + 1) rest
-      else retryLoop ps (i + 1) rest := by
-  rw [← retryableFail_matches_source]
-  conv => lhs; unfold retryLoop
-  by_cases hr : res.retryableFail = true
-  · simp only [hr, if_true]
-    cases matchPayload ps res.cr with
-    | some p => rfl
-    | none =>
-      simp only [Gen.Src.c12RetryFallbackOutOfRange, decide_eq_true_eq]
-      by_cases hi : i ≥ ps.length
-      · simp [hi]
-      · simp only [hi, if_false]; cases ps[i]? <;> rfl
-  · simp [hr]
-
-/-! ### retry queue -/
-
-/-- retry_queue.go `elapsed`: `now.Sub(r.updatedAt) > expr` -/
-theorem elapsed_matches_source (now : Nat) (r : Rec) :
-    elapsed now r = Gen.Src.c12Elapsed (now - r.updatedAt) r.interval := by
-  simp only [elapsed, Gen.Src.c12Elapsed]
-  exact decide_eq_decide.mpr (by omega)
-
-/-- retry_queue.go `expired`: `now.Sub(r.createdAt) > expr` -/
-theorem expired_matches_source (cfg : Cfg) (now : Nat) (r : Rec) :
-    expired cfg now r = Gen.Src.c12Expired (now - r.createdAt) cfg.expiration := by
-  simp only [expired, Gen.Src.c12Expired]
-  exact decide_eq_decide.mpr (by omega)
-
-/-- `Enqueue`: `rec.Interval > 0` selects the custom interval, else the queue's default -/
-theorem effInterval_matches_source (cfg : Cfg) (iv : Int) :
-    effInterval cfg iv = if Gen.Src.c12EnqueueCustomInterval iv then iv.toNat else cfg.interval := by
-  simp [effInterval, Gen.Src.c12EnqueueCustomInterval]
-
-/-- one iteration of `Enqueue`: the three regenerated `if` conditions in source order — `!ok` (fresh
-record), the check-block comparison (payload replaced), `rec.Interval > 0` -/
-theorem enqueue_matches_source (cfg : Cfg) (now : Nat) (q : Queue) (r : RetryRecord) :
-    enqueue cfg now q r =
-      (let rec0 : Rec :=
-        if Gen.Src.c12EnqueueFresh (get q r.payload.workID).isSome then
-          { payload := r.payload, interval := 0, pending := false, createdAt := now, updatedAt := 0 }
-        else (get q r.payload.workID).getD default
-       let rec1 : Rec :=
-        if Gen.Src.c12EnqueueReplaces r.payload.trigger.blockNumber rec0.payload.trigger.blockNumber
-        then { rec0 with payload := r.payload } else rec0
-       let iv : Nat := if Gen.Src.c12EnqueueCustomInterval r.interval then r.interval.toNat else cfg.interval
-       put q r.payload.workID { rec1 with updatedAt := now, pending := false, interval := iv }) := by
-  simp only [enqueue, effInterval_matches_source, Gen.Src.c12EnqueueFresh, Gen.Src.c12EnqueueReplaces]
-  cases get q r.payload.workID <;> simp
-
-/-- one iteration of the `Dequeue` loop: the four regenerated `if` conditions in source order — expired
-(purge), pending (skip), elapsed (hand out), `len(results) >= n` (break) — over the regenerated `expired`
-and `elapsed` tests -/
-theorem dequeueLoop_matches_source (cfg : Cfg) (now n : Nat) (k : String) (ks : List String) (q : Queue)
-    (out : List Payload) :
-    dequeueLoop cfg now n (k :: ks) q out =
-      match get q k with
-      | none => dequeueLoop cfg now n ks q out
-      | some r =>
-        if Gen.Src.c12DequeuePurges (Gen.Src.c12Expired (now - r.createdAt) cfg.expiration) then
-          dequeueLoop cfg now n ks (del q k) out
-        else if Gen.Src.c12DequeueSkipsPending r.pending then dequeueLoop cfg now n ks q out
-        else if Gen.Src.c12DequeueDue (Gen.Src.c12Elapsed (now - r.updatedAt) r.interval) then
-          if Gen.Src.c12DequeueFull (out ++ [r.payload]).length n then
-            (put q k { r with pending := true }, out ++ [r.payload])
-          else dequeueLoop cfg now n ks (put q k { r with pending := true }) (out ++ [r.payload])
-        else dequeueLoop cfg now n ks q out := by
-  conv => lhs; unfold dequeueLoop
-  cases get q k with
-  | none => rfl
-  | some r =>
-    simp only [Gen.Src.c12DequeuePurges, Gen.Src.c12DequeueSkipsPending, Gen.Src.c12DequeueDue,
-      Gen.Src.c12DequeueFull, ← expired_matches_source, ← elapsed_matches_source, decide_eq_true_eq]
 
 /-! ## node level: why a retryable failure is checked again within one retry tick -/
 
